@@ -97,7 +97,8 @@ CHECKS["C01"] = (
     "Generated-input search over fitted models of all four families under many constructor profiles (stored, reloaded, predicted on "
     "several reporting sets incl. temperatures outside the fitted range: bit-identical frames, idempotent documents, timezone / "
     "warnings / disqualifications kept) and over thousands of parameter documents (7 shapes x 48 split layouts x calendar maps) whose "
-    "predictions must equal the documented formula evaluated from the JSON alone.",
+    "predictions must equal the documented formula evaluated from the JSON alone. Every constructor profile is fitted in each tier; unrelated "
+    "models with other calendar maps are constructed before predicting.",
     "Trusted: vf/ref/daily_curve.py; documents compared as parsed JSON (key order and 12 vs 12.0 are not semantic).",
     "DESIGN.md section 6, C01",
 )
@@ -105,7 +106,8 @@ CHECKS["C01"] = (
 CHECKS["C04"] = (
     "Hypothesis-generated defective baselines x flag/storage/argument combinations against a decision-table oracle",
     "Generated-input search over baselines carrying combinations of sufficiency defects (daily legacy/current, billing, hourly) "
-    "crossed with both override flags, storage, reporting argument kinds (own, baseline object, foreign type, other timezone) and "
+    "and int64/float32 column dtypes, crossed with both override flags, storage, reporting argument kinds (own, baseline object, foreign type, "
+    "other timezone incl. zones sharing the baseline's offset in one season) and "
     "fitted/unfitted models; every outcome (returned model/frame or exception type) is compared with the fail-closed decision table.",
     "Trusted: the decision table in vf/props/c04.py; the data object's own verdict feeds it (C10 judges the verdict).",
     "DESIGN.md section 6, C04",
@@ -114,7 +116,8 @@ CHECKS["C04"] = (
 CHECKS["C05"] = (
     "Hypothesis-generated fitted models and reporting sets; metamorphic relation over alterations of the observed column",
     "Generated-input search: models of all four families fitted on full-year baselines predict paired reporting sets that differ "
-    "only in observed usage (scaled, permuted, partly/fully NaN, absent, zero, negated, inf, constant); the predicted value of "
+    "only in observed usage (scaled, permuted, partly/fully NaN, absent, zero, negated, inf, constant), with identical gaps in the weather "
+    "columns and optionally a model that was used before; the predicted value of "
     "every timestamp predicted in both runs must be bit-identical, hourly families must predict every row, and the altered run "
     "must not raise.",
     "Trusted: the alteration and comparison code in vf/props/c05.py.",
@@ -185,7 +188,8 @@ CHECKS["C12"] = (
 CHECKS["C02"] = (
     "Hypothesis rule-based state machines over call histories per family + generated constructor/fit cases; snapshot and fresh-copy differential invariants",
     "Stateful search: sequences of predict (spans from one day to a year, with/without usage, both flags, GHI-carrying data), serialise, "
-    "interleaved fits of other meters and writes into handed-out frames are generated and shrunk as one value; after every step the "
+    "interleaved real fits of other meters with other model objects and calendar maps, construction of unrelated models and writes into "
+    "handed-out frames are generated and shrunk as one value (the object under test is the one fit() returned, not a copy); after every step the "
     "model's JSON must equal its post-fit snapshot, each prediction must be bit-identical to that of a fresh deep copy of the post-fit "
     "model, and every data object must be unchanged. Generated constructor and fit cases compare the caller's frames/series and the "
     "data object's lists with deep copies taken before the call.",
@@ -195,8 +199,8 @@ CHECKS["C02"] = (
 
 CHECKS["C03"] = (
     "Hypothesis-generated process-level schedules (order, pool size, warm-up history, environment) executed in subprocesses; digest equality against fresh-process references",
-    "Generated schedules over a batch of meters of every family: permutations, 1-8 subprocesses, unrelated warm-up actions and repeated "
-    "fits/predictions inside warm processes, PYTHONHASHSEED in {0, 1, 12345, random} and BLAS thread variables in {unset, 1, 4}; the "
+    "Generated schedules over a batch of meters of every family (incl. seed 0, another optimiser step, supplemental columns): permutations, "
+    "1-16 subprocesses, unrelated warm-up actions and repeated fits/predictions inside warm processes, every model serialised again at the end of its process, PYTHONHASHSEED in {0, 1, 12345, random} and BLAS thread variables in {unset, 1, 4}; the "
     "sha-256 of to_json() and of the prediction bytes of every execution must equal the fresh single-process reference. CalTRACK's "
     "thread-count dependence is a listed known finding.",
     "Trusted: sha-256 digests; the harness owns the schedule at process granularity only; one machine / BLAS build.",
